@@ -3478,6 +3478,9 @@ fn validate_extension_declarations(
     extensions: Vec<ExpirationExtension2>,
 ) -> Result<ExtendExpirationsInner, ActorError> {
     let mut claim_space_by_sector = BTreeMap::<SectorNumber, (u64, u64)>::new();
+    // Each claim may be declared only once per sector: its space must not be counted twice, or a
+    // repeated claim could stand in for one that does not allow the new expiration.
+    let mut declared_claims_by_sector = BTreeMap::<SectorNumber, BTreeSet<ext::verifreg::ClaimID>>::new();
 
     for decl in &extensions {
         let policy = rt.policy();
@@ -3494,6 +3497,17 @@ fn validate_extension_declarations(
             let mut drop_claims = sc.drop_claims.clone();
             let mut all_claim_ids = sc.maintain_claims.clone();
             all_claim_ids.append(&mut drop_claims);
+            let declared = declared_claims_by_sector.entry(sc.sector_number).or_default();
+            for claim_id in &all_claim_ids {
+                if !declared.insert(*claim_id) {
+                    return Err(actor_error!(
+                        illegal_argument,
+                        "claim {} declared more than once for sector {}",
+                        claim_id,
+                        sc.sector_number
+                    ));
+                }
+            }
             let claims = get_claims(rt, &all_claim_ids)
                 .with_context(|| format!("failed to get claims for sector {}", sc.sector_number))?;
             let first_drop = sc.maintain_claims.len();
